@@ -91,6 +91,14 @@ def body():
     def f_dom(x, n, d, res):
         res[0] = 2.0 * d + 1.0
 
+    @api.callable(vectorized=True)
+    def f_dom_vec(x, n, d, res):
+        res[0, :] = 2.0 * d + 1.0
+
+    @api.callable(vectorized=True, complex=True)
+    def f_dom_vec_c(x, n, d, res):
+        res[0, :] = (1.0 + 0.5j) * (2.0 * d + 1.0)
+
     @api.real_callable
     def f_vecfield(x, n, d, res):
         res[0] = 1.0
@@ -266,6 +274,13 @@ def body():
                     want = np.array([2.0 * m.dom[e] + 1.0 for e in np.flatnonzero(sp["DP0"].support)])
                     if np.abs(gf.coefficients - want).max() > 1e-10:
                         fail("callable:domain_index", "DP0 coefficients of a domain-wise constant callable (%s) deviate" % vname)
+                    for fv, fac, nm in ((f_dom_vec, 1.0, "vectorized"), (f_dom_vec_c, 1.0 + 0.5j, "vectorized complex")):
+                        for kk in ("DP0", "DP1"):
+                            gfv = api.GridFunction(sp[kk], fun=fv)
+                            wantv = fac * np.repeat(want, 1 if kk == "DP0" else 3)
+                            if np.abs(gfv.coefficients - wantv).max() > 1e-10:
+                                fail("callable:domain_index:%s" % nm.replace(" ", "_"), "%s coefficients of a domain-wise constant %s callable (%s) deviate by %.3g" % (
+                                    kk, nm, vname, np.abs(gfv.coefficients - wantv).max()))
                     # projections of a constant vector field onto RWG
                     gf = api.GridFunction(sp["RWG"], fun=f_vecfield)
                     wantp = np.zeros(3 * m.n)
